@@ -38,6 +38,7 @@ type Engine struct {
 type modInfo struct {
 	writes map[string]bool
 	nonFresh map[string]bool
+	writeRefs map[string]map[string]bool
 	cuts   bool
 }
 
